@@ -46,6 +46,8 @@ def run(ctx):
     scs += cc.fault_scenarios(plain, rnd, 6 if quick else 40)
     scs += cc.error_code_scenarios(plain[:40], rnd)
     scs += cc.quota_scenarios(plain[40:], rnd, 12 if quick else 80)
+    v2only = [l for l in plain if all(b["fmt"] == "v2" for b in l)]
+    scs += cc.follower_scenarios(v2only, rnd, 6 if quick else 40)
     scs += cc.slow_reader_scenarios(plain, rnd, 5 if quick else 40)
     scs += cc.newest_scenarios(plain + txn, rnd, 40 if quick else 400)
     scs += cc.close_scenarios(plain, rnd, 4 if quick else 30)
